@@ -158,6 +158,11 @@ func (w *world) mergeVals(cond *Term, a, b value) (value, bool) {
 			return nil, false
 		}
 		return iface{av.t, m}, true
+	case mathInt:
+		if bm, ok := b.(mathInt); ok {
+			return mathInt{w.tc.Ite(cond, av.t, bm.t)}, true
+		}
+		return nil, false
 	case *value:
 		if bp, ok := b.(*value); ok && bp == av {
 			return a, true
